@@ -6,4 +6,5 @@ export CARGO_NET_OFFLINE=true
 mkdir -p .build evidence replays
 (cd harness && cargo build --release --features hooks)
 if [ -x tools/build_ls.sh ]; then tools/build_ls.sh; fi
+if [ -x tools/build_cli.sh ]; then tools/build_cli.sh; fi
 echo setup ok
